@@ -8,7 +8,7 @@ cmd = base["cmd"].replace("<file>", out)
 if len(sys.argv) > 1:
     cmd = cmd.replace("cd /repo", "cd " + sys.argv[1])
 try:
-    p = subprocess.run("exec timeout -k 10 900 sh -c " + __import__("shlex").quote(cmd), shell=True, capture_output=True, text=True, env=env)
+    p = subprocess.run("exec timeout -k 10 420 sh -c " + __import__("shlex").quote(cmd), shell=True, capture_output=True, text=True, env=env)
 except Exception as e:  # noqa
     print("baseline run failed:", e); sys.exit(2)
 passed = set()
